@@ -1,5 +1,8 @@
 // dsp.h - glue between dsplib arrays and the long double reference types
 #pragma once
+#include <cstring>
+#include <thread>
+#include <vector>
 
 #include <dsplib.h>
 
@@ -222,4 +225,25 @@ inline std::string head(const arr_cmplx& x, int k = 4) {
     return s + "]";
 }
 
+
+//runs f in a newly created thread (fresh thread_local state: plan caches, memoised designs, scratch buffers) and waits for it
+template<class F>
+inline void in_fresh_thread(F f) {
+    std::thread t(f);
+    t.join();
+}
+
+inline bool bits_equal_vec(const std::vector<double>& a, const std::vector<double>& b) {
+    return a.size() == b.size() && (a.empty() || std::memcmp(a.data(), b.data(), a.size() * sizeof(double)) == 0);
+}
+
+//history independence of a pure call: its result after whatever this thread did before must equal, bit for bit, the result of the same
+//call made first thing in a fresh thread
+template<class F>
+inline bool same_as_in_fresh_thread(F f) {
+    const std::vector<double> here = f();
+    std::vector<double> fresh;
+    in_fresh_thread([&] { fresh = f(); });
+    return bits_equal_vec(here, fresh);
+}
 }   // namespace vd
